@@ -95,8 +95,45 @@ theorem C09_level_invariant (env : Env) (cfg : Config) (enc : Option Name) (ver 
                                                 then p.level else p.level - 1) + 2 :=
   level_invariant env cfg enc ver cs hi
 
+/-- **a negative preamble indent is rejected** (`DiffXOptionValueError`) **and nothing is
+written**: the call does not succeed and leaves the stream, the section stack and the
+previous-section marker as they were — whatever the writer state, the text argument and the
+other options are -/
+theorem C09_negative_indent_rejected (env : Env) (cfg : Config) (st : St) (text : Arg)
+    (enc : Option Name) (n : Int) (hn : n < 0) (le : Option Text) (mime : Option Text) :
+    (step env cfg st (.preamble text enc (some n) le mime)).2 ≠ .ok ∧
+    (step env cfg st (.preamble text enc (some n) le mime)).1 = st :=
+  step_preamble_negative_rejected env cfg st text enc n hn le mime
+
+/-- the exact outcome when the text is a `str`: `DiffXOptionValueError` (raised for the
+indent, or — the mimetype being checked first — already for an invalid mimetype, which is the
+same exception class), in every writer state, before the order check, and the writer is
+unchanged -/
+theorem C09_negative_indent_optionError (env : Env) (cfg : Config) (st : St) (t : Text)
+    (enc : Option Name) (n : Int) (hn : n < 0) (le : Option Text) (mime : Option Text) :
+    step env cfg st (.preamble (.str t) enc (some n) le mime) = (st, .optionError) :=
+  step_preamble_negative env cfg st t enc n hn le mime
+
 /-! ### tests -/
 /-- a state in which `C09_accept`'s hypotheses are met -/
 example : (init (some (Text.ofAscii b!"utf-8")) (Text.ofAscii b!"1.0")).2 = .ok := by decide
+/-- a one-byte-per-code-point codec under every name (JSON functions unused) -/
+def testEnv : Env :=
+  { canon := fun n => .ok n,
+    encode := fun _ t => .ok (t.map (·.toUInt8)),
+    decode := fun _ b => .ok (b.map (·.toNat)),
+    loadsText := fun _ => .ok (.obj []),
+    loadsBytes := fun _ => .ok (.obj []),
+    dumps := fun _ => .ok [] }
+def testCfg : Config := { chunk := 96, boms := [], defaultIndent := 4, defaultEncoding := [] }
+
+/-- `add_preamble('hi', indent=-1)` on a fresh writer: option error; the same call with
+`indent=0` is accepted, so the rejection is due to the sign of the indent -/
+example :
+    (step testEnv testCfg (init (some (Text.ofAscii b!"utf-8")) (Text.ofAscii b!"1.0")).1
+      (.preamble (.str (Text.ofAscii b!"hi")) none (some (-1)) none none)).2 = .optionError ∧
+    (step testEnv testCfg (init (some (Text.ofAscii b!"utf-8")) (Text.ofAscii b!"1.0")).1
+      (.preamble (.str (Text.ofAscii b!"hi")) none (some 0) none none)).2 = .ok := by
+  decide
 
 end Diffx.C09
